@@ -4,10 +4,12 @@
 import json, subprocess, sys, os
 name = sys.argv[1]; note = sys.argv[2] if len(sys.argv) > 2 else ""
 d = f"/verif/seeded/{name}"; meta = json.load(open(f"{d}/meta.json")); pid = meta["property"]
+import fcntl
+_lk = open("/tmp/verif_repo.lock", "w"); fcntl.flock(_lk, fcntl.LOCK_EX)
 assert not subprocess.run(["git", "-C", "/repo", "status", "--short"], capture_output=True, text=True).stdout.strip(), "/repo dirty"
 subprocess.run(["git", "-C", "/repo", "apply", f"{d}/patch.diff"], check=True)
 try:
-    r = subprocess.run(["./check", pid], cwd="/verif", capture_output=True, text=True)
+    r = subprocess.run(["./check", pid], cwd="/verif", capture_output=True, text=True, env=dict(os.environ, VERIF_LOCK_HELD="1"))
 finally:
     subprocess.run(["git", "-C", "/repo", "checkout", "--", "."], check=True)
 lines = [l[:300] for l in r.stdout.splitlines() if l.startswith(("VIOLATION", "UNDECIDED", "FAILED-OBLIGATION", "PASS", "KNOWN"))]
